@@ -2193,51 +2193,56 @@ def hxb(b):
 
 
 def c15_roundtrip_build(r, n, toks):
-    """constructor-built payloads -> MarshalJSON (real code) -> parse; expected canonical payload computed here"""
+    """constructor-built payloads -> MarshalJSON (real code, and the model's encoder: compared byte for byte) -> parse;
+    expected canonical payload computed here. A share of the constructor calls is invalid (refused by both)."""
     from proto import Proc, IMPL
     p = Proc([IMPL])
     lines = []
     expect = {}
     tok = toks[0][0]
+    odd_denoms = ["", "a<b>&c", "q\"uote\\", "tab\there", "uni\u2028x\u00e9y\u2029", "\x7f~ ", "\x01\x1f\x08\x0c\n\r", "\U0001F600"]
     for i in range(n):
         k = r.below(3)
-        nact = r.below(2)
+        nact = r.choice([0, 1, 1, 2]) if r.chance(1, 6) else r.below(2)
         pt = r.choice([b"", b"", r.bytes(r.range(1, 40))])
+        bad = r.chance(1, 6)
         if k == 0:
-            dom = r.choice([0, 1, 5, 7, 2 ** 32 - 1])
-            mint = r.bytes(r.choice([32, 20, 1]))
+            dom = r.choice([0, 1, 5, 7, 2 ** 32 - 1]) if not bad else r.choice([4, 4, 0])
+            mint = r.bytes(r.choice([32, 20, 1])) if not (bad and dom != 4) else b""
             caller = r.choice([b"", r.bytes(32)])
             spec = "cctp:%d:%s:%s:%s" % (dom, hxb(mint), hxb(caller), hxb(pt))
             fw = "fwd{pid=2;attr=cctp(%d,%s,%s);pt=%s}" % (dom, hxb(mint), hxb(caller), hxb(pt))
         elif k == 1:
-            rec = r.choice(U)
+            rec = r.choice(U) if not bad else r.choice(["", "noble1qqqq", ORB, U[0].upper(), "cosmos1zw7vatnx0vla7gzxucgypz0kfr6965ak7xurzj"])
             spec = "int:%s" % hx(rec)
             fw = "fwd{pid=4;attr=int(%s);pt=-}" % hx(rec)
         else:
-            dom = r.choice([1, 2, 10])
-            rc, hook = r.bytes(32), r.choice([b"", r.bytes(32)])
-            meta = r.choice(["", "0x", "0xabcdef"])
-            gas = r.choice([0, 1, 50000, 2 ** 200])
-            fd, fa = r.choice([("uusdc", 0), ("uusdc", 5), ("stake", 10 ** 30)])
+            dom = r.choice([1, 2, 10, 2 ** 32 - 1]) if not bad else r.choice([1, scen.HYP_NOBLE_MAINNET if hasattr(scen, "HYP_NOBLE_MAINNET") else 1313817164])
+            rc, hook = r.bytes(32 if not bad else r.choice([32, 31, 33, 0])), r.choice([b"", r.bytes(32)] if not bad else [b"", r.bytes(31)])
+            meta = r.choice(["", "0x", "0xabcdef", "0xABCDEF01"]) if not bad else r.choice(["", "abcd", "0xabc", "0xzz", "0X12"])
+            gas = r.choice([0, 1, 50000, 2 ** 200, -5, 2 ** 256 - 1])
+            fd, fa = r.choice([("uusdc", 0), ("uusdc", 5), ("stake", 10 ** 30), ("ibc/27394FB092D2ECCD56123C74F36E4C1F926001CEADA9CA97EA622B25F41E5EB2", 7)])
+            if r.chance(1, 3):
+                fd, fa = r.choice(odd_denoms), r.choice([0, 0, 0, 3])
             spec = "hyp:%s:%d:%s:%s:%s:%d:%s:%d:%s" % (hxb(tok), dom, hxb(rc), hxb(hook), hx(meta), gas, hx(fd), fa, hxb(pt))
             fw = "fwd{pid=3;attr=hyp(%s,%d,%s,%s,%s,%d,%s,%d);pt=%s}" % (hxb(tok), dom, hxb(rc), hxb(hook), hx(meta), gas, hx(fd), fa, hxb(pt))
         acts_spec, acts_c = "", []
-        if nact:
-            m = r.range(0, 5)
+        for _ in range(nact):
+            m = r.range(0, 5) if not r.chance(1, 10) else 6
             es, cs = [], []
             for _ in range(m):
-                rec = r.choice(U)
+                rec = r.choice(U) if not r.chance(1, 12) else r.choice(["", "nope", U[1].upper()])
                 if r.chance(1, 2):
-                    v = r.choice([1, 100, 10000])
+                    v = r.choice([1, 100, 10000]) if not r.chance(1, 10) else r.choice([0, 10001, 2 ** 32 - 1])
                     es.append("%s b %s" % (hx(rec), hx(str(v))))
                     cs.append("%s:b:%d" % (hx(rec), v))
                 else:
-                    v = str(r.choice([1, 7, 10 ** 30]))
+                    v = str(r.choice([1, 7, 10 ** 30])) if not r.chance(1, 10) else r.choice(["0", "-1", "abc", "0x10", "1_000", "+5", "007", str(2 ** 256)])
                     es.append("%s a %s" % (hx(rec), hx(v)))
                     cs.append("%s:a:%s" % (hx(rec), hx(v)))
-            acts_spec = " fee %d %s" % (m, " ".join(es))
-            acts_c = ["{id=1;attr=fee([%s])}" % ",".join(cs)]
-        l1 = "pure marshal %s %d%s" % (spec, nact, acts_spec)
+            acts_spec += " fee %d %s" % (m, " ".join(es))
+            acts_c.append("{id=1;attr=fee([%s])}" % ",".join(cs))
+        l1 = ("pure marshal %s %d%s" % (spec, nact, acts_spec)).rstrip()
         o = p.ask(l1)
         lines.append(l1)
         if o.startswith("ok:"):
